@@ -563,16 +563,15 @@ loopbreak:
 	L.Push(LString(name))
 	L.Call(1, 1)
 	ret := L.reg.Pop()
-	modv := L.GetField(loaded, name)
-	if ret != LNil && modv == loopdetection {
+	if ret != LNil {
 		L.SetField(loaded, name, ret)
-		L.Push(ret)
-	} else if modv == loopdetection {
-		L.SetField(loaded, name, LTrue)
-		L.Push(LTrue)
-	} else {
-		L.Push(modv)
 	}
+	modv := L.GetField(loaded, name)
+	if modv == loopdetection {
+		L.SetField(loaded, name, LTrue)
+		modv = LTrue
+	}
+	L.Push(modv)
 	return 1
 }
 
